@@ -187,6 +187,16 @@ def make_watch_cases(tier, seed):
                 mops.append({"kind": "rename", "p": d2 + [lossy(nb2)], "to": d3 + [lossy(nb3)], "check": True})
                 if (d3, nb3) not in created:
                     created.append((d3, nb3))
+        if exts2 is not None:
+            # changes that only ONE of the two entries makes relevant, in each directory the entries list
+            def fits(n, ex):
+                return any(n.endswith(e if e.startswith(".") else "." + e) for e in ex if e)
+            for dd, mine, other in ((resources[1]["paths"][-1], exts2, exts), (["src", "sub"], exts, exts2), (["src"], exts, exts2)):
+                pool = [n for n in FILE_NAMES if fits(n, mine) and not fits(n, other) and "~" not in n and ".sw" not in n]
+                if pool:
+                    n = rng.choice(pool)
+                    ops.append({"op": "create", "path": {"segs": dd + [comp_json(name_bytes(n))]}})
+                    mops.append({"kind": "create", "p": dd + [lossy(name_bytes(n))], "to": [], "check": True})
         m = {"resources": resources, "ops": mops, "also": ["C15"]}      # "watching applies the same rule to the path of each event"
         cases.append({"id": "w%d" % k, "kindcase": "watch", "m": m,
                       "job": {"id": "w%d" % k, "tree": tree, "yaml": y, "requested": ["t"], "sentinel": sent, "ops": ops, "settle_ms": 30}})
